@@ -310,6 +310,7 @@ COMPARATOR_TO_OPERATOR = {
 _NEG_OPERATOR_TO_AST = {
     neg_op: node_cls for node_cls, (_, neg_op, _) in COMPARATOR_TO_OPERATOR.items()
 }
+_MIRRORED_COMPARATOR = {ast.Lt: ast.Gt, ast.LtE: ast.GtE, ast.Gt: ast.Lt, ast.GtE: ast.LtE}
 AST_TO_REVERSE = {
     node_cls: _NEG_OPERATOR_TO_AST[op]
     for node_cls, (op, _, _) in COMPARATOR_TO_OPERATOR.items()
@@ -3561,8 +3562,9 @@ class NameCheckVisitor(node_visitor.ReplacingNodeVisitor):
         elif isinstance(rhs_constraint, PredicateProvider) and isinstance(
             lhs, KnownValue
         ):
+            # The provider is on the right: "2 < len(x)" means "len(x) > 2".
             constraint = self._constraint_from_predicate_provider(
-                rhs_constraint, lhs.val, op
+                rhs_constraint, lhs.val, _MIRRORED_COMPARATOR.get(type(op), type(op))()
             )
         elif isinstance(rhs, KnownValue):
             constraint = self._constraint_from_compare_op(
@@ -3633,6 +3635,9 @@ class NameCheckVisitor(node_visitor.ReplacingNodeVisitor):
             return Constraint(varname, ConstraintType.predicate, positive, predicate)
         else:
             positive_operator, negative_operator, ext = COMPARATOR_TO_OPERATOR[type(op)]
+            if not is_right and type(op) in _MIRRORED_COMPARATOR:
+                # "1 < x" bounds x from below
+                _, _, ext = COMPARATOR_TO_OPERATOR[_MIRRORED_COMPARATOR[type(op)]]
 
             def predicate_func(value: Value, positive: bool) -> Optional[Value]:
                 op = positive_operator if positive else negative_operator
